@@ -41,7 +41,8 @@ META = {
         "atoms (and the eigen-solver meets its contract) the placed atom has exactly the template's distance to each of them and the "
         "template's bond angles; a +-120 degree rotation about the heavy-heavy bond keeps bond length and angle to the axis atom and lands "
         "at squared distance 3 rho^2 (no coincident atoms when rho>0); with two of three hydrogens present (120 degrees apart) the +120/+240 choice of "
-        "rebuild_tetrahedral lands at squared distance 3 rho^2 from BOTH; every rotation about a bond through the parent (all optimisation / "
+        "rebuild_tetrahedral lands at squared distance 3 rho^2 from BOTH; at name level, for any bond graph, add_hydrogens/repair_heavy fit on exactly the first three PRESENT "
+        "names of get_nearest_bonds, never on N+1/C-1 when the peptide pointer is absent (chain break, terminus); every rotation about a bond through the parent (all optimisation / "
         "debumping moves) keeps the distances to both axis atoms, the bond angle and all distances among atoms moved together; the no-bond "
         "water hydrogen sits exactly 1 A from O. Generated obligations (vm_compute, lifted with forallb_forall): for every amino-acid "
         "template x dihedral x terminus flags the moved set is, over ALL atoms, exactly the component beyond the pivot bond - hydrogens "
@@ -66,6 +67,8 @@ THEOREMS = [
     "C05_tetra_120",
     "C05_tetra3_choice",
     "C05_rotation_keeps_parent_geometry",
+    "C05_fit_neighbours",
+    "C05_fit_skips_absent_pointer",
     "C05_unit_placement",
     "C05_all_atom_subtree_table",
     "C05_hydrogens_move_with_parents",
@@ -140,11 +143,19 @@ def angle_deg(a, b, c):
     return math.degrees(math.acos(max(-1.0, min(1.0, float(np.dot(u, v) / nu / nv)))))
 
 
+BONDED = 2.0  # A: two atoms further apart are not bonded, whatever a pointer or a bond list says
+
+
 def resolve(res, name):
-    if name == "N+1":
-        return getattr(res, "peptide_n", None)
-    if name == "C-1":
-        return getattr(res, "peptide_c", None)
+    """The atom a template name stands for. The pseudo atoms N+1 / C-1 are the peptide pointers, but ONLY if
+    that atom really is within bonding distance of this residue's C / N: across a chain break there is no
+    neighbour (the unchanged code sets the pointers to None there), so no angle or distortion is taken from it."""
+    if name in PSEUDO:
+        other = getattr(res, "peptide_n" if name == "N+1" else "peptide_c", None)
+        mine = res.get_atom("C" if name == "N+1" else "N")
+        if other is None or mine is None or math.dist(other.coords, mine.coords) > BONDED:
+            return None
+        return other
     return res.get_atom(name)
 
 
@@ -215,6 +226,10 @@ class Monitor:
                 "out": [float(v) for v in out],
                 "site": frames[0][0] if frames else "?",
             }
+            try:
+                mon._fit_names(rec, frames)
+            except Exception as e:  # noqa - diagnostics only
+                rec["names_error"] = repr(e)
             mon.fits.append(rec)
             mon.last_fit = rec
             return out
@@ -254,6 +269,29 @@ class Monitor:
     def __exit__(self, *a):
         for obj, name, old in reversed(self._saved):
             setattr(obj, name, old)
+
+    def _fit_names(self, rec, frames):
+        """For add_hydrogens / repair_heavy: which template names the three structure atoms stand for, what
+        was present, and the template bond graph (input of the name-level model Model.Placement.fit_names)."""
+        if not frames or rec["site"] not in ("Biomolecule.add_hydrogens", "Biomolecule.repair_heavy"):
+            return
+        fl = frames[0][1].f_locals
+        res, x, bondlist = fl.get("residue"), fl.get("atomname"), fl.get("bondlist")
+        if res is None or x is None or bondlist is None:
+            return
+        ref = res.reference
+        rec["residue"], rec["x"] = str(res), x
+        used, k = [], 0
+        for b in bondlist:
+            if k < len(rec["defs"]) and b in ref.map and [float(v) for v in ref.map[b].coords] == rec["defs"][k]:
+                used.append(b)
+                k += 1
+        rec["used"] = used if k == len(rec["defs"]) else None
+        rec["graph"] = {an: list(a.bonds) for an, a in ref.map.items()}
+        rec["bondlist"] = list(bondlist)
+        rec["present"] = [a.name for a in res.atoms]
+        rec["has_pn"] = getattr(res, "peptide_n", None) is not None
+        rec["has_pc"] = getattr(res, "peptide_c", None) is not None
 
     def _annotate(self, res, atom, info, frames):
         """parent at creation; for copies (Flip) the source atom's own deviation from the template."""
@@ -463,6 +501,38 @@ def check_added_atoms(ctx, bio, label, case, stats=None):
     return nfail
 
 
+def check_fit_neighbours(ctx, fits, label, case):
+    """Model-independent oracle on the recorded find_coordinates calls: two fitted points that are BONDED in the
+    template (template distance < 1.95 A) must be within bonding distance (2.0 A) in the structure - else a
+    structure atom stands for a template atom it is not (wrong neighbour list, stale pointer across a break)."""
+    nfail = 0
+    for r in fits:
+        n = r["n"]
+        bad = None
+        for i in range(n):
+            for j in range(i + 1, n):
+                dt = math.dist(r["defs"][i], r["defs"][j])
+                ds = math.dist(r["refs"][i], r["refs"][j])
+                if dt < 1.95 and ds > BONDED:
+                    bad = (i, j, dt, ds)
+        ctx.evaluated(("fit-neighbours", r["site"], n, r.get("x"), (r.get("residue") or "").split(" ")[0], r.get("has_pn"), r.get("has_pc")), n >= 3)
+        if bad:
+            nfail += 1
+            i, j, dt, ds = bad
+            names = r.get("used") or ["?"] * n
+            who = f"{r.get('residue', '?')} {r.get('x', '?')}"
+            ctx.fail(
+                {"site": r["site"], "field": "fit-neighbour", "condition": "not-bonded-in-structure", "points": n},
+                f"{label}: placement of {who} at {r['site']}: fitted points {names[i] if i < len(names) else i} and {names[j] if j < len(names) else j} are bonded in the template ({dt:.2f} A) but {ds:.2f} A apart in the structure",
+                dict(case, residue=r.get("residue"), atom=r.get("x"), field="fit-neighbour"),
+            )
+    return nfail
+
+
+def judge_run(ctx, bio, mon, label, case, stats=None):
+    return check_fit_neighbours(ctx, mon.fits, label, case) + check_added_atoms(ctx, bio, label, case, stats)
+
+
 # --------------------------------------------------------------------------
 # runs
 
@@ -568,6 +638,7 @@ def build_cases(ctx):
     # helices (different backbone conformation, side chains relaxed by the builder)
     for seq in (["ALA", "LEU", "LYS", "GLU", "MET", "GLN", "ARG", "PHE"], ["SER", "ILE", "THR", "VAL", "ASN", "TRP", "TYR", "HIS"]):
         cases.append((f"helix {'-'.join(seq)}", B.to_pdb(B.build_peptide(seq, helix=True, rotation=B.random_rotation(nrng))), OPTION_SETS[len(cases) % 3], "helix"))
+    cases += break_cases(ctx, rng, nrng)
     cases += hydrogen_pattern_cases(ctx, rng, nrng)
     cases += truncation_cases(ctx, rng, nrng)
     return cases
@@ -660,6 +731,55 @@ def hydrogen_pattern_cases(ctx, rng, nrng):
         st = B.build_strand(list(seq), rna=rna, hydrogens=True, rotation=B.random_rotation(nrng))
         for k in range(7) if ctx.thorough else ((k0 + (1 if rna else 0)) % 7, (k0 + 3) % 7, (k0 + 5) % 7):
             cases.append((f"{'RNA' if rna else 'DNA'} {seq} with input hydrogens, subset {k} missing", B.to_pdb(B.reserial(drop_pattern(st, k))), ["--ff=AMBER"] if k % 2 else ["--ff=CHARMM", "--nodebump"], "input-H-nucleic"))
+    return cases
+
+
+def break_cases(ctx, rng, nrng):
+    """Chains with INTERNAL breaks: k residues deleted from the middle under one chain id, no TER (no terminus patch
+    at the break: the C-1 / N+1 neighbours are simply absent there), and numbering gaps WITHOUT a geometric break."""
+    cases = []
+    pool = ["ALA", "SER", "LEU", "LYS", "GLY", "THR", "VAL", "ASP", "PHE", "ASN", "GLU", "ILE", "TYR", "MET", "GLN", "ARG"]
+
+    def add(label, atoms, k):
+        cases.append((label, B.to_pdb(B.reserial(atoms)), OPTION_SETS[k % 7], "break"))
+
+    n = 0
+    for k in (1, 2, 3):
+        for after in ("any", "PRO"):
+            seq = rng.sample(pool, 9)
+            cut = list(range(4, 4 + k))  # 1-based residue numbers removed
+            if after == "PRO":
+                seq[4 + k - 1] = "PRO"  # first residue after the break
+            for hyd in (False, True):
+                full = B.build_peptide(seq, hydrogens=hyd, rotation=B.random_rotation(nrng))
+                broken = B.delete_atoms(full, lambda a, cut=cut: a.resseq in cut)
+                add(f"break: residues {cut} of {'-'.join(seq)} missing{' (input hydrogens)' if hyd else ''}", broken, n)
+                n += 1
+                if hyd:
+                    # the N-side hydrogens of the residue after the break are missing (amide H must be rebuilt without C-1)
+                    nxt = cut[-1] + 1
+                    add(f"break: residues {cut} missing, input hydrogens but no H on residue {nxt}: {'-'.join(seq)}", B.delete_atoms(broken, lambda a, nxt=nxt: a.resseq == nxt and a.name in ("H", "HN")), n)
+                else:
+                    # the carbonyl O before the break is missing too (rebuilt without N+1)
+                    add(f"break: residues {cut} missing and no O on residue {cut[0] - 1}: {'-'.join(seq)}", B.delete_atoms(broken, lambda a, c=cut[0] - 1: a.resseq == c and a.name == "O"), n + 3)
+                n += 1
+    # break next to either terminus, and two breaks in one chain
+    seq = rng.sample(pool, 8)
+    full = B.build_peptide(seq, rotation=B.random_rotation(nrng))
+    add(f"break after the first residue: {'-'.join(seq)}", B.delete_atoms(full, lambda a: a.resseq == 2), 0)
+    add(f"break before the last residue: {'-'.join(seq)}", B.delete_atoms(full, lambda a: a.resseq == 7), 1)
+    add(f"two breaks: {'-'.join(seq)}", B.delete_atoms(full, lambda a: a.resseq in (3, 6)), 2)
+    # numbering gaps WITHOUT a geometric break: must behave exactly as a complete chain
+    add(f"numbering gap, contiguous chain: {'-'.join(seq)}", B.renumber(full, lambda c, r, i: r if r < 4 else r + 10), 3)
+    add(f"numbering gap + insertion codes, contiguous chain: {'-'.join(seq)}", B.renumber(full, lambda c, r, i: (r, "") if r < 5 else (5, "ABCD"[r - 5])), 5)
+    # nucleic strands: a missing nucleotide (O3'-P break), with and without input hydrogens; numbering gap
+    for rna in (False, True):
+        sq = list("ACGUA" if rna else "ACGTA")
+        for hyd in (False, True):
+            st = B.build_strand(sq, rna=rna, hydrogens=hyd, rotation=B.random_rotation(nrng))
+            cases.append((f"{'RNA' if rna else 'DNA'} {''.join(sq)} nucleotide 3 missing{' (input hydrogens)' if hyd else ''}", B.to_pdb(B.reserial(B.delete_atoms(st, lambda a: a.resseq == 3))), ["--ff=AMBER"], "break-nucleic"))
+        st = B.build_strand(sq, rna=rna, rotation=B.random_rotation(nrng))
+        cases.append((f"{'RNA' if rna else 'DNA'} numbering gap, contiguous strand", B.to_pdb(B.renumber(st, lambda c, r, i: r if r < 3 else r + 7)), ["--ff=CHARMM"], "break-nucleic"))
     return cases
 
 
@@ -834,6 +954,50 @@ def tie_primitives(ctx, fits, rots, units, limit, choices=()):
     return ok
 
 
+NAMES_HEADER = (
+    HEADER
+    + "From PV Require Import Lib.Decimal.\n"
+    + 'Definition show_ids (o : option (list id)) : string := match o with None => "NONE"%string | Some l => String.concat " " (map (fun i => Z_to_string (Zpos i)) l) end.\n'
+)
+
+
+def names_key(r):
+    return core.sha([r["x"], r["graph"], sorted(r["present"]), r["has_pn"], r["has_pc"]])
+
+
+def tie_fit_names(ctx, recs, limit):
+    """Model.Placement.fit_names (get_nearest_bonds + the selection loop) vs the names add_hydrogens / repair_heavy used."""
+    terms, meta = [], []
+    for r in recs[:limit]:
+        ids = {}
+
+        def I(n):
+            return ids.setdefault(n, len(ids) + 1)
+
+        g = core.coq_list([f"({I(a)}%positive, {core.coq_list([f'{I(b)}%positive' for b in bs])})" for a, bs in r["graph"].items()])
+        atoms = core.coq_list([f"{I(a)}%positive" for a in r["present"]])
+        terms.append(f"show_ids (fit_names {g} (present_in {I('N+1')}%positive {I('C-1')}%positive {str(r['has_pn']).lower()} {str(r['has_pc']).lower()} {atoms}) {I(r['x'])}%positive)")
+        meta.append((r, {v: k for k, v in ids.items()}))
+    if not terms:
+        return True
+    try:
+        outs = core.run_cases("C05n", NAMES_HEADER, terms, chunk=40)
+    except core.CoqEvalError as e:
+        ctx.broke("correspondence-broken", "fit neighbour names: model evaluation failed", str(e))
+        return False
+    ok = True
+    for (r, inv), o in zip(meta, outs):
+        ctx.cov["correspondence_cases"] += 1
+        ctx.count("corr:fit_names")
+        model = None if o == "NONE" else [inv[int(t)] for t in o.split()]
+        if model != r["used"]:
+            ok = False
+            ctx.cov["correspondence_disagreements"] += 1
+            if sum(x["kind"] == "correspondence-broken" for x in ctx.broken) < 5:
+                ctx.broke("correspondence-broken", f"Model.Placement.fit_names vs the neighbours used at {r['site']}", f"{r['residue']} {r['x']}: impl={r['used']} model={model} (peptide_n {r['has_pn']}, peptide_c {r['has_pc']})", {"type": "primitive", "what": "fit_names", "data": {k: r[k] for k in ('residue', 'x', 'used', 'has_pn', 'has_pc', 'site')}})
+    return ok
+
+
 # --------------------------------------------------------------------------
 
 
@@ -899,7 +1063,7 @@ def run(ctx):
             sites[s] = sites.get(s, 0) + n
         for s, n in mon.unknown_sites.items():
             unknown[s] = unknown.get(s, 0) + n
-        check_added_atoms(ctx, bio, f"{label} [{' '.join(args)}]", {"type": "run", "pdb_text": text, "args": args, "label": label}, stats)
+        judge_run(ctx, bio, mon, f"{label} [{' '.join(args)}]", {"type": "run", "pdb_text": text, "args": args, "label": label}, stats)
     for name, args in REAL_THOROUGH if (ctx.thorough or boost) else REAL_QUICK:
         path = core.REPO / "tests" / "data" / name
         if not path.exists():
@@ -918,7 +1082,7 @@ def run(ctx):
             sites[s] = sites.get(s, 0) + n
         for s, n in mon.unknown_sites.items():
             unknown[s] = unknown.get(s, 0) + n
-        check_added_atoms(ctx, bio, f"{name} [{' '.join(args)}]", {"type": "file", "pdb": name, "args": args}, stats)
+        judge_run(ctx, bio, mon, f"{name} [{' '.join(args)}]", {"type": "file", "pdb": name, "args": args}, stats)
     for s, n in sorted(sites.items()):
         ctx.count(f"create_atom@{s}", n)
     for s, n in unknown.items():
@@ -932,6 +1096,16 @@ def run(ctx):
         three = [r for r in fl if r["n"] != 2]
         lim = 1500 if ctx.thorough else 240
         tie_primitives(ctx, two[: lim // 3] + three[: lim - min(len(two), lim // 3)], rots, units, lim, choices)
+        named = {}
+        for r in fl:
+            if r.get("used") is not None and "graph" in r:
+                k = (r["has_pn"], r["has_pc"], r["residue"].split(" ")[0], r["x"], tuple(r["used"]))
+                named.setdefault(k, r)
+        nl = list(named.values())
+        ctx.rng.shuffle(nl)
+        # calls next to a break / terminus first (a pointer is absent), then the rest
+        nl.sort(key=lambda r: r["has_pn"] and r["has_pc"])
+        tie_fit_names(ctx, nl, 600 if ctx.thorough else 160)
         # the fit theorem's hypothesis on observed calls: >= 3 non-collinear template points
         for r in three:
             s = c15.template_sine(r["defs"][: r["n"]])
@@ -983,7 +1157,7 @@ def replay(ctx, data):
             return 1
         c2 = core.Ctx("C05", "quick", data.get("seed", 0))
         c2.known = []
-        n = check_added_atoms(c2, bio, "replay", case)
+        n = judge_run(c2, bio, mon, "replay", case)
         hit = [f for f in c2.failures if f["case"].get("residue") == case.get("residue") and f["case"].get("atom") == case.get("atom")]
         if case.get("residue"):  # the recorded failure itself, not other (e.g. known) ones of the same run
             n = len(hit)
